@@ -163,6 +163,10 @@ def run_case(case):
                 # (with the LAST observable of the request, so that lazily initialised process-wide state is first touched by another
                 # observable than in the first process)
                 yad.Runner(th, cards.observables(request(names[-1:], pts[:2]), xgrid=cards.warp_grid(g["xgrid"]), deg=g["deg"], is_log=g["is_log"], **case["obs"])).get_result()
+                if th["FNS"] != "ZM-VFNS":
+                    # ... and the same request under another NfFF first (process-wide state keyed without the flavour number)
+                    th_other = dict(th, NfFF=th["NfFF"] + 1 if th["NfFF"] < 5 else th["NfFF"] - 1)
+                    yad.Runner(th_other, mkobs(request(names[-1:] + [names[0].split("_")[0] + "_total"], pts[:1]))).get_result()
             except ValueError:
                 pass
         ref_out = yad.Runner(th, mkobs(request(names, pts))).get_result()
